@@ -83,7 +83,9 @@ func (h *statusSessionHandler) HandlePacket(pc *proto.PacketContext) {
 var versionName = fmt.Sprintf("Gate %s", version.SupportedVersionsString)
 
 func newInitialPing(p *Proxy, protocol proto.Protocol) *ping.ServerPing {
-	if !version.Protocol(protocol).Supported() {
+	if v := version.Protocol(protocol).Version(); v == version.Unknown || v == version.Legacy {
+		// Not a version this proxy knows (Supported() only excludes the Unknown
+		// sentinel -1): advertise the newest supported one instead.
 		protocol = version.MaximumVersion.Protocol
 	}
 	var modInfo *modinfo.ModInfo
@@ -119,7 +121,10 @@ func (h *statusSessionHandler) handleStatusRequest(pc *proto.PacketContext) {
 
 	log := h.log
 	if h.resolvePingResponse == nil {
-		e.ping = newInitialPing(h.proxy, pc.Protocol)
+		// The protocol the client sent in its handshake: the packet context only carries the
+		// protocol of the packet registry in use, which falls back to the oldest supported
+		// version for a client protocol the proxy does not know.
+		e.ping = newInitialPing(h.proxy, h.conn.Protocol())
 	} else {
 		var err error
 		var res *packet.StatusResponse
